@@ -590,6 +590,15 @@ func drawSnippet(t *rapid.T, name string, e genEnv) []Op {
 			b2 := rapid.IntRange(0, e.nBrows-1).Draw(t, "b2")
 			ops = append(ops, Op{K: "setcookie", B: b2, Src: "cookie", SA: a, SN: rapid.IntRange(0, 2).Draw(t, "oldn")}, Op{K: "newsess", B: b2}, Op{K: "visit", B: b2, S: "/p/none"})
 		}
+	case "neighbourpw":
+		// somebody types an account's identifier with the password of the account next to it (twins, shared households)
+		if !c.Has("auth") || e.nAcct < 2 {
+			return nil
+		}
+		ops = append(ops, Op{K: "newsess", B: b}, Op{K: "login", B: b, A: a, Src: "pw", SA: (a + e.nAcct - 1) % e.nAcct})
+		if chance(t, "probe", 50) {
+			ops = append(ops, Op{K: "visit", B: b, S: pick(t, "route", "/p/none", "/p/lock", "/p/confirm")})
+		}
 	case "rmrevoke":
 		// remembered on one or two browsers, perhaps re-authenticated by cookie (the cookie rotates), then the password
 		// changes (API or recovery), then copies of the cookies from before - spent ones included - come back
